@@ -113,12 +113,14 @@ def meta(tier):
                 'combination of operand alternatives (literals, backward and forward labels, label expressions, registers); '
                 'oracle: image(program with macro) == image(program with the invocation replaced by the substituted steps), both '
                 'assembled by the real code; unfillable placeholders must be rejected; non-trivial = macro with >=2 steps or a '
-                'forward reference; states = distinct macro definitions',
+                'forward reference; twin definitions: an instruction and a macro with the same sequence of 1..2 (thorough 3) variant layouts out of 8 '
+                '(no operands, an empty operand, operand sets, listed combinations, a listed combination with a trailing empty operand, both) x 7 '
+                'operand texts must match the same variant or both be rejected; states = distinct macro definitions',
         'bounds': {'patterns': {k: v[0] for k, v in PATTERNS.items()}, 'templates': TEMPLATES, 'unfillable': BAD_TEMPLATES,
                    'steps': 3 if q else 4},
         'assumptions': ['differential oracle: the expanded program is assembled by the same assembler (its encodings are the subject of C01)',
                         'a label follows the invocation and its value is emitted, so the size of the macro is observed as well'],
-        'floors': {'evaluations': 1000, 'nontrivial': 100, 'statuses': ['OK', 'REJECT'], 'clauses': ['expansion', 'unfillable-rejected', 'variant-choice']},
+        'floors': {'evaluations': 1000, 'nontrivial': 100, 'statuses': ['OK', 'REJECT'], 'clauses': ['expansion', 'unfillable-rejected', 'variant-choice', 'same-matching-rules']},
         'nshards': 64, 'xcheck': 16,
     }
 
@@ -139,6 +141,7 @@ def shard(acc, tier, idx, n):
     q = tier == 'quick'
     maxsteps = 3 if q else 4
     ctr = 0
+    twins(acc, tier, idx, n)
     for pname, (sets, alts) in PATTERNS.items():
         tpls = TEMPLATES[pname]
         invocations = list(itertools.product(*alts))
@@ -202,7 +205,88 @@ def shard(acc, tier, idx, n):
                 acc.judge(clause='unfillable-rejected', nontrivial_key=(pname, bad, pos))
 
 
+# ---- same matching rules as an instruction: twin definitions -------------------------------------------------------------
+_RA = {'type': 'register', 'register': 'a', 'bytecode': {'value': 1, 'size': 4}}
+_EM = {'type': 'empty', 'bytecode': {'value': 2, 'size': 4}}
+LAYOUTS = {
+    'none': None,
+    'empty': {'count': 1, 'specific_operands': {'e': {'list': {'em': _EM}}}},
+    'reg': {'count': 1, 'operand_sets': {'list': ['reg']}},
+    'imm': {'count': 1, 'operand_sets': {'list': ['imm']}},
+    'spec_a': {'count': 1, 'specific_operands': {'s': {'list': {'ra': _RA}}}},
+    'reg_imm': {'count': 2, 'operand_sets': {'list': ['reg', 'imm']}},
+    'spec_a_empty': {'count': 2, 'specific_operands': {'s': {'list': {'ra': _RA, 'em': _EM}}}},
+    'reg_or_spec': {'count': 1, 'operand_sets': {'list': ['imm']}, 'specific_operands': {'s': {'list': {'ra': _RA}}}},
+}
+TWIN_INVOCATIONS = ['', 'a', 'b', '5', 'a, 5', 'a, b', 'A']
+
+
+def twin_isa(layout_names):
+    import copy
+    isa = copy.deepcopy(BASE_ISA)
+    isa['instructions']['tag'] = {'bytecode': {'value': 0xE0, 'size': 8}, 'operands': {'count': 1, 'operand_sets': {'list': ['imm']}}}
+    ivars, mvars = [], []
+    for i, ln in enumerate(layout_names):
+        ops = copy.deepcopy(LAYOUTS[ln])
+        iv = {'bytecode': {'value': 0x10 + i, 'size': 8}}
+        mv = {'instructions': [f'tag {i}']}
+        if ops is not None:
+            iv['operands'] = ops
+            mv['operands'] = copy.deepcopy(ops)
+        ivars.append(iv)
+        mvars.append(mv)
+    first = ivars[0]
+    if len(ivars) > 1:
+        first['variants'] = ivars[1:]
+    isa['instructions']['xi'] = first
+    isa['macros'] = {'xm': mvars}
+    return isa
+
+
+def judge_twin(spec, outs):
+    a, b = outs            # a: the instruction statement, b: the macro statement
+    if a.status == 'HANG' or b.status == 'HANG':
+        return 'assembly did not terminate'
+    if a.status != 'OK' or b.status != 'OK':
+        if a.status != b.status:
+            return (f'instruction {a.status} ({a.detail if a.status != "OK" else a.image.hex()}) but macro with the same variant layout '
+                    f'{b.status} ({b.detail if b.status != "OK" else b.image.hex()})')
+        return None
+    vi = a.image[0] - 0x10 if a.image else None
+    vm = b.image[1] if b.image and len(b.image) >= 2 and b.image[0] == 0xE0 else None
+    if vi != vm:
+        return f'instruction matched variant {vi} (image {a.image.hex()}) but the macro matched variant {vm} (image {b.image.hex()})'
+    return None
+
+
+def twins(acc, tier, idx, n):
+    q = tier == 'quick'
+    names = list(LAYOUTS)
+    seqs = [(a,) for a in names] + list(itertools.product(names, repeat=2))
+    if not q:
+        seqs += list(itertools.product(names, repeat=3))
+    for ctr, seq in enumerate(seqs):
+        if ctr % n != idx:
+            continue
+        isa = twin_isa(seq)
+        acc.state(('twin', seq))
+        for inv in TWIN_INVOCATIONS:
+            c1 = Case(isa, f'    xi {inv}\n')
+            c2 = Case(isa, f'    xm {inv}\n')
+            o1, o2 = acc.run(c1), acc.run(c2)
+            acc.transition(2)
+            spec = {'type': 'twin', 'layouts': list(seq), 'operands': inv}
+            m = judge_twin(spec, [o1, o2])
+            if m:
+                acc.violation([c1, c2], spec, f'variants {list(seq)}, operands {inv!r}: {m}', [o1, o2])
+            acc.judge(clause='same-matching-rules', nontrivial_key=('twin', seq, inv) if len(seq) > 1 or 'empty' in ''.join(seq) else None)
+        if ctr % 23 == 0:
+            acc.sample({'twin_variant_layouts': list(seq), 'invocations': TWIN_INVOCATIONS})
+
+
 def judge(spec, outcomes):
+    if spec.get('type') == 'twin':
+        return judge_twin(spec, outcomes)
     if spec.get('type') == 'pair':
         return judge_pair(spec, outcomes)
     return judge_expect(spec, outcomes)
